@@ -90,6 +90,17 @@ PRINTER = PrinterVal()
 SELF = SelfVal()
 
 
+class Lazy:
+    """a boolean combination of guard atoms held in a local (`content = bool(buffered or cached)`):
+    its truth is derived from the atoms it is made of, never decided on its own"""
+
+    def __init__(self, expr, env):
+        self.expr, self.env = expr, dict(env)
+
+    def __repr__(self):
+        return "<lazy %s>" % src(self.expr)
+
+
 class Fork(Exception):
     def __init__(self, key):
         self.key = key
@@ -484,6 +495,8 @@ class Interp:
             return self.atom("nonempty(%s)" % v.text())
         if isinstance(v, Atom):
             return self.atom(v.key)
+        if isinstance(v, Lazy):
+            return self.truth(v.expr, v.env)
         if isinstance(v, (LocalDef, LocalInstance, PrinterVal, SelfVal)):
             return True
         return self.atom("?%r" % (v,))
@@ -550,12 +563,12 @@ class Interp:
                         continue
                     return Atom(self.key_of(e, env))
                 return self.value(e.values[-1], env)
-            return Atom(self.key_of(e, env))
+            return Lazy(e, env)
         if isinstance(e, ast.UnaryOp) and isinstance(e.op, ast.Not):
             v = self.value(e.operand, env)
             if isinstance(v, Const):
                 return Const(not v.v)
-            return Atom(self.key_of(e, env))
+            return Lazy(e, env)
         if isinstance(e, ast.Compare):
             if len(e.ops) == 1:
                 l, r = self.value(e.left, env), self.value(e.comparators[0], env)
@@ -601,6 +614,11 @@ class Interp:
                     kind = "r" if v.conversion == ord("r") else "s"
                     parts.extend(to_str(val, src(v.value), kind).parts)
             return Str(parts)
+        if isinstance(e, ast.Call) and isinstance(e.func, ast.Name) and e.func.id == "bool" and len(e.args) == 1 and not e.keywords and "bool" not in env:
+            v = self.value(e.args[0], env)
+            if isinstance(v, Const):
+                return Const(bool(v.v))
+            return Lazy(e.args[0], env)
         if isinstance(e, ast.Call):
             return self.call(e, env)
         if isinstance(e, ast.IfExp):
